@@ -276,7 +276,9 @@ def sort_assignments(
                 "Try to save the ODE to an .ode file first and load it again"
             )
             raise exceptions.GotranxError(msg)
-        sorter.add(assignment.name, *assignment.value.dependencies)
+        # sort the dependencies: iteration order of a frozenset of strings depends on
+        # PYTHONHASHSEED and would otherwise leak into the topological order
+        sorter.add(assignment.name, *sorted(assignment.value.dependencies))
 
     static_order = tuple(sorter.static_order())
 
